@@ -127,6 +127,7 @@ theorem foldl_enum_ok (syn : Syn) :
     | extend x ms => simpa using h
     | extRange s e => simpa using h
     | rpc n i o cs ss => simpa using h
+    | msgSet b => simpa using h
 
 theorem buildEnum_ok (syn : Syn) (scope : String) (b : Body) (hn : ElemsOk b.elems)
     (h : (buildEnum syn scope b).2 = []) : EnumWf (buildEnum syn scope b).1 := by
@@ -249,8 +250,8 @@ theorem msgWf'_fields {m m' : MsgD} (h : MsgWf' m) (fs : List FieldD) (hfs : ∀
   · exact hfs fd h'
 
 theorem buildElem_wf (nm : Naming) (f : FileA) (hf : ∀ b ∈ f.msgs, ElemsOk b.elems) (hfe : ∀ b ∈ f.enums, ElemsOk b.elems)
-    (syn : Syn) (rec : BodyRec) (hrec : RecWf rec) (fq : String) (depth : Nat) (acc : BodyAcc) (hacc : AccWf acc)
-    (e : Elem) (hne : elemNameOk e) : AccWf (buildElem nm f syn rec fq depth acc e) := by
+    (syn : Syn) (rec : BodyRec) (hrec : RecWf rec) (mt : Nat) (fq : String) (depth : Nat) (acc : BodyAcc) (hacc : AccWf acc)
+    (e : Elem) (hne : elemNameOk e) : AccWf (buildElem nm f syn rec mt fq depth acc e) := by
   unfold buildElem AccWf
   cases e with
   | enum i =>
@@ -288,14 +289,14 @@ theorem buildElem_wf (nm : Naming) (f : FileA) (hf : ∀ b ∈ f.msgs, ElemsOk b
     rcases List.mem_append.mp hr with h | h
     · exact b r h
     · rw [List.mem_singleton.mp h]
-      have := rangeBounds_ok s e 1 (Int.ofNat fieldMax) hee
+      have := rangeBounds_ok s e 1 (Int.ofNat mt) hee
       simp only [RangeWf, Bool.false_eq_true, if_false]
       omega
   | field a =>
     simp only [List.append_eq_nil_iff]
     rintro ⟨he, _⟩
     obtain ⟨hm, hk⟩ := hacc he
-    refine ⟨msgWf'_fields hm [(asFieldD nm syn fieldMax a).1] ?_ rfl rfl rfl rfl, hk⟩
+    refine ⟨msgWf'_fields hm [(asFieldD nm syn mt a).1] ?_ rfl rfl rfl rfl, hk⟩
     intro fd hfd
     rw [List.mem_singleton.mp hfd, asFieldD_name]
     exact hne
@@ -304,7 +305,7 @@ theorem buildElem_wf (nm : Naming) (f : FileA) (hf : ∀ b ∈ f.msgs, ElemsOk b
     rintro ⟨⟨he, _⟩, _⟩
     obtain ⟨hm, hk⟩ := hacc he
     constructor
-    · refine msgWf'_fields hm [(mapDescriptors nm syn fq fieldMax k v n num).1] ?_ rfl rfl rfl rfl
+    · refine msgWf'_fields hm [(mapDescriptors nm syn fq mt k v n num).1] ?_ rfl rfl rfl rfl
       intro fd hfd
       rw [List.mem_singleton.mp hfd]
       simp only [mapDescriptors, newFieldD_name]
@@ -321,11 +322,11 @@ theorem buildElem_wf (nm : Naming) (f : FileA) (hf : ∀ b ∈ f.msgs, ElemsOk b
         · rw [List.mem_singleton.mp h']; simp [newFieldD_name]
   | group g =>
     simp only [List.append_eq_nil_iff]
-    have hg := buildGroup_wf nm f hf rec hrec fq fieldMax (depth + 1) g
+    have hg := buildGroup_wf nm f hf rec hrec fq mt (depth + 1) g
     rintro ⟨he, hee⟩
     obtain ⟨hm, hk⟩ := hacc he
     constructor
-    · refine msgWf'_fields hm [(buildGroup nm f rec fq fieldMax (depth + 1) g).1] ?_ rfl rfl rfl rfl
+    · refine msgWf'_fields hm [(buildGroup nm f rec fq mt (depth + 1) g).1] ?_ rfl rfl rfl rfl
       intro fd hfd
       rw [List.mem_singleton.mp hfd, hg.1]
       exact hne
@@ -335,7 +336,7 @@ theorem buildElem_wf (nm : Naming) (f : FileA) (hf : ∀ b ∈ f.msgs, ElemsOk b
       · exact hg.2 hee k h
   | oneof n members =>
     simp only [List.append_eq_nil_iff]
-    have hb := buildMembers_wf nm f hf syn rec hrec fq fieldMax (depth + 1) members hne
+    have hb := buildMembers_wf nm f hf syn rec hrec fq mt (depth + 1) members hne
     rintro ⟨⟨he, hee⟩, _⟩
     obtain ⟨hm, hk⟩ := hacc he
     constructor
@@ -370,7 +371,7 @@ theorem buildElem_wf (nm : Naming) (f : FileA) (hf : ∀ b ∈ f.msgs, ElemsOk b
     rcases List.mem_append.mp hr with h | h
     · exact a r h
     · rw [List.mem_singleton.mp h]
-      have := rangeBounds_ok s e 1 (Int.ofNat fieldMax) hee
+      have := rangeBounds_ok s e 1 (Int.ofNat mt) hee
       simp only [RangeWf, Bool.false_eq_true, if_false]
       omega
   | reservedName n i =>
@@ -381,15 +382,16 @@ theorem buildElem_wf (nm : Naming) (f : FileA) (hf : ∀ b ∈ f.msgs, ElemsOk b
   | svc i => exact hacc
   | value n num => exact hacc
   | allowAlias b => exact hacc
+  | msgSet b => exact hacc
   | rpc n i o cs ss => exact hacc
 
 theorem foldl_buildElem_wf (nm : Naming) (f : FileA) (hf : ∀ b ∈ f.msgs, ElemsOk b.elems) (hfe : ∀ b ∈ f.enums, ElemsOk b.elems)
-    (syn : Syn) (rec : BodyRec) (hrec : RecWf rec) (fq : String) (depth : Nat) :
-    ∀ (es : List Elem) (acc : BodyAcc), ElemsOk es → AccWf acc → AccWf (es.foldl (buildElem nm f syn rec fq depth) acc)
+    (syn : Syn) (rec : BodyRec) (hrec : RecWf rec) (mt : Nat) (fq : String) (depth : Nat) :
+    ∀ (es : List Elem) (acc : BodyAcc), ElemsOk es → AccWf acc → AccWf (es.foldl (buildElem nm f syn rec mt fq depth) acc)
   | [], _, _, h => h
   | e :: rest, acc, hn, h =>
-    foldl_buildElem_wf nm f hf hfe syn rec hrec fq depth rest _ (fun x hx => hn x (List.mem_cons_of_mem _ hx))
-      (buildElem_wf nm f hf hfe syn rec hrec fq depth acc h e (hn e (List.mem_cons_self ..)))
+    foldl_buildElem_wf nm f hf hfe syn rec hrec mt fq depth rest _ (fun x hx => hn x (List.mem_cons_of_mem _ hx))
+      (buildElem_wf nm f hf hfe syn rec hrec mt fq depth acc h e (hn e (List.mem_cons_self ..)))
 
 theorem assignSynthetic_names (base : Nat) : ∀ (fs : List FieldD) (names : List String),
     (∀ f ∈ fs, f.name ≠ "") → ∀ f ∈ assignSynthetic base fs names, f.name ≠ ""
@@ -438,16 +440,23 @@ theorem buildBody_wf (nm : Naming) (f : FileA) (hf : ∀ b ∈ f.msgs, ElemsOk b
     · simp at he
     · rename_i hd
       simp only [hd, if_false] at hk
-      have hacc := foldl_buildElem_wf nm f hf hfe syn (buildBody nm f syn fuel) (buildBody_wf nm f hf hfe syn fuel)
-        (joinName scope name) depth elems { m := { fullName := joinName scope name, name := name } } hn
-        (fun _ => ⟨⟨⟨by simp, by simp, by simp⟩, by simp⟩, by simp⟩)
-      simp only at he
-      obtain ⟨hm, hkids⟩ := hacc he
-      rcases List.mem_cons.mp hk with rfl | hk'
-      · split
-        · exact processProto3Optional_wf nm _ hm
-        · exact hm
-      · exact hkids k hk'
+      split at he
+      · simp at he
+      · rename_i ho
+        simp only [ho, if_false] at hk
+        have hacc := foldl_buildElem_wf nm f hf hfe syn (buildBody nm f syn fuel) (buildBody_wf nm f hf hfe syn fuel)
+          (if (msgSetOptions elems == [true]) = true then messageSetMax else fieldMax)
+          (joinName scope name) depth elems
+          { m := { fullName := joinName scope name, name := name, messageSet := (msgSetOptions elems).head? },
+            errs := if (msgSetOptions elems == [true] && syn == Syn.proto3) = true then ["msgset-proto3"] else [] } hn
+          (fun _ => ⟨⟨⟨by simp, by simp, by simp⟩, by simp⟩, by simp⟩)
+        simp only [List.append_eq_nil_iff] at he
+        obtain ⟨hm, hkids⟩ := hacc he.1
+        rcases List.mem_cons.mp hk with rfl | hk'
+        · split
+          · exact processProto3Optional_wf nm _ hm
+          · exact hm
+        · exact hkids k hk'
 
 /-- invariant of the file-level loop -/
 def TopWf (acc : FileD × List Rule) : Prop :=
@@ -513,6 +522,7 @@ theorem buildTop_wf (nm : Naming) (f : FileA) (hf : ∀ b ∈ f.msgs, ElemsOk b.
     | reservedName n i => exact h
     | value n num => exact h
     | allowAlias b => exact h
+    | msgSet b => exact h
     | rpc n i o cs ss => exact h
 
 /-- **construction without errors yields well-formed descriptors** -/
